@@ -1,2 +1,332 @@
+/-
+C08 `stored_stream_decodes`: the output of `MakeUncompressedStream`, read by the
+specification readers of `BV/Lemmas/HeaderSpec.lean` (RFC 7932 §9.1 / §9.2),
+is: window 10, an empty metadata block (the byte `03` used as padding), one
+uncompressed meta-block per chunk of the input (2^24 bytes each, the rest
+last; 4, 5 or 6 length nibbles), the empty last meta-block — for byte strings
+of any length.
+-/
 import BV.Lemmas.HeaderStored
 import BV.Lemmas.HeaderStart
+namespace BV.Stored
+open BV.Bits BV.Header BV.Bits.Out BV.HeaderSpec
+
+/-! ## bit fields of a chunk header -/
+
+theorem bitsOf_mod (n v : Nat) : bitsOf n (v % 2 ^ n) = bitsOf n v := by
+  induction n generalizing v with
+  | zero => rfl
+  | succ n ih =>
+    simp only [bitsOf]
+    have h1 : v % 2 ^ (n + 1) % 2 = v % 2 := by
+      rw [Nat.pow_succ, Nat.mul_comm]; exact Nat.mod_mul_right_mod v 2 (2 ^ n)
+    have h2 : v % 2 ^ (n + 1) / 2 = (v / 2) % 2 ^ n := by
+      rw [Nat.pow_succ, Nat.mul_comm, Nat.mod_mul_right_div_self]
+    rw [h1, h2, ih]
+
+theorem bitsOf_zero (p : Nat) : bitsOf p 0 = List.replicate p false := by
+  induction p with
+  | zero => rfl
+  | succ p ih => simp [bitsOf, List.replicate_succ, ih]
+
+theorem bitsOf_congr (n a b : Nat) (h : a % 2 ^ n = b % 2 ^ n) : bitsOf n a = bitsOf n b := by
+  rw [← bitsOf_mod n a, ← bitsOf_mod n b, h]
+
+/-- a word made of the fields ISLAST(1) | MNIBBLES(2) | MLEN-1(m) | ISUNCOMPRESSED(1) | padding(p) -/
+theorem field_bits (m p nib x W : Nat) (hnib : nib < 4) (hx : x < 2 ^ m)
+    (hW : W = nib * 2 + x * 8 + 2 ^ (3 + m)) :
+    bitsOf (1 + (2 + (m + (1 + p)))) W
+      = false :: (bitsOf 2 nib ++ (bitsOf m x ++ (true :: List.replicate p false))) := by
+  rw [bitsOf_add, bitsOf_add, bitsOf_add, bitsOf_add]
+  have hpm : 0 < 2 ^ m := Nat.pow_pos (by decide)
+  have e3 : 2 ^ (3 + m) = 8 * 2 ^ m := by rw [Nat.pow_add]
+  rw [e3] at hW
+  have d2 : W / 2 ^ 1 / 2 ^ 2 = x + 2 ^ m := by
+    generalize 2 ^ m = M at *
+    omega
+  have f0 : bitsOf 1 W = [false] := by
+    have : W % 2 = 0 := by
+      generalize 2 ^ m = M at *
+      omega
+    simp [bitsOf, this]
+  have f1 : bitsOf 2 (W / 2 ^ 1) = bitsOf 2 nib := by
+    apply bitsOf_congr
+    generalize 2 ^ m = M at *
+    omega
+  have f2 : bitsOf m (x + 2 ^ m) = bitsOf m x := by
+    apply bitsOf_congr; exact Nat.add_mod_right x (2 ^ m)
+  have f3 : (x + 2 ^ m) / 2 ^ m = 1 := by
+    rw [Nat.add_div_right _ hpm, Nat.div_eq_of_lt hx]
+  have f4 : bitsOf p (1 / 2 ^ 1) = List.replicate p false := by
+    have : (1 : Nat) / 2 ^ 1 = 0 := by decide
+    rw [this]
+    exact bitsOf_zero p
+  rw [f0, f1, d2, f2, f3, f4]
+  rfl
+theorem takeVal_split (k n v : Nat) (r : List Bool) :
+    takeVal k (bitsOf (k + n) v ++ r) = some (v % 2 ^ k, bitsOf n (v / 2 ^ k) ++ r) := by
+  rw [bitsOf_add, List.append_assoc]
+  simp [takeVal, valOf_bitsOf]
+
+theorem bytes3_bits (w : Nat) :
+    [w % 256, w / 2 ^ 8 % 256, w / 2 ^ 16 % 256].flatMap (bitsOf 8) = bitsOf 24 w := by
+  simp only [List.flatMap_cons, List.flatMap_nil, List.append_nil]
+  rw [show (24 : Nat) = 8 + (8 + 8) by rfl, bitsOf_add, bitsOf_add]
+  rw [show (256 : Nat) = 2 ^ 8 by rfl, bitsOf_mod, bitsOf_mod, bitsOf_mod]
+  rw [Nat.div_div_eq_div_mul]
+
+theorem bytes4_bits (w : Nat) :
+    [w % 256, w / 2 ^ 8 % 256, w / 2 ^ 16 % 256, w / 2 ^ 24 % 256].flatMap (bitsOf 8) = bitsOf 32 w := by
+  simp only [List.flatMap_cons, List.flatMap_nil, List.append_nil]
+  rw [show (32 : Nat) = 8 + (8 + (8 + 8)) by rfl, bitsOf_add, bitsOf_add, bitsOf_add]
+  rw [show (256 : Nat) = 2 ^ 8 by rfl, bitsOf_mod, bitsOf_mod, bitsOf_mod, bitsOf_mod]
+  rw [Nat.div_div_eq_div_mul, Nat.div_div_eq_div_mul]
+
+/-- the specification reader on an uncompressed meta-block: ISLAST = 0, MNIBBLES code `mn`,
+MLEN − 1 = `x`, ISUNCOMPRESSED = 1, padding, payload -/
+theorem readMetaBlock_raw (pos mn x : Nat) (c : List Nat) (rest : List Bool)
+    (hmn : mn < 3) (hx : x < 2 ^ (4 * (4 + mn))) (hnz : ¬ (4 + mn > 4 ∧ x / 2 ^ (4 * (4 + mn - 1)) = 0))
+    (hc : c.length = x + 1) (hb : ∀ b ∈ c, b < 256) :
+    readMetaBlock pos (false :: (bitsOf 2 mn ++ (bitsOf (4 * (4 + mn)) x ++ (true ::
+        (List.replicate ((8 - (pos + 1 + 2 + 4 * (4 + mn) + 1) % 8) % 8) false ++ (c.flatMap (bitsOf 8) ++ rest))))))
+      = some (MetaBlock.raw c,
+          pos + 1 + 2 + 4 * (4 + mn) + 1 + (8 - (pos + 1 + 2 + 4 * (4 + mn) + 1) % 8) % 8 + 8 * c.length, rest) := by
+  simp only [readMetaBlock, Bool.false_eq_true, if_false]
+  rw [takeVal_bitsOf 2 mn _ (by omega)]
+  simp only [show ¬ mn = 3 by omega, if_false]
+  rw [takeVal_bitsOf (4 * (4 + mn)) x _ hx]
+  simp only [hnz, if_false]
+  rw [skipPad_pad]
+  simp only [← hc]
+  rw [takeBytes_bytes c rest hb]
+  simp
+
+theorem nibOf_cases (n : Nat) : (nibOf n = 0 ∧ n ≤ 2 ^ 16) ∨ (nibOf n = 1 ∧ 2 ^ 16 < n ∧ n ≤ 2 ^ 20) ∨ (nibOf n = 2 ∧ 2 ^ 20 < n) := by
+  simp only [nibOf]
+  split
+  · split
+    · right; right; exact ⟨rfl, by omega⟩
+    · right; left; exact ⟨rfl, by omega, by omega⟩
+  · left; exact ⟨rfl, by omega⟩
+
+/-- the header bytes of a chunk, as bit fields -/
+theorem hdr_bits (n : Nat) (h1 : 1 ≤ n) (h2 : n ≤ 2 ^ 24) :
+    (hdrBytes n).flatMap (bitsOf 8) = false :: (bitsOf 2 (nibOf n) ++ (bitsOf (4 * (4 + nibOf n)) (n - 1) ++
+      (true :: List.replicate (if nibOf n = 1 then 0 else 4) false))) := by
+  rcases nibOf_cases n with ⟨hn, hr⟩ | ⟨hn, hr1, hr2⟩ | ⟨hn, hr⟩
+  · simp only [hdrBytes, hn, show ¬ ((0 : Nat) = 2) by decide, show ¬ ((0 : Nat) = 1) by decide, if_false,
+      List.append_nil]
+    rw [bytes3_bits]
+    exact field_bits 16 4 0 (n - 1) (wordOf n) (by decide) (by omega) (by simp [wordOf, hn])
+  · simp only [hdrBytes, hn, show ¬ ((1 : Nat) = 2) by decide, if_false, if_true, List.append_nil]
+    rw [bytes3_bits]
+    exact field_bits 20 0 1 (n - 1) (wordOf n) (by decide) (by omega) (by simp [wordOf, hn])
+  · simp only [hdrBytes, hn, show ¬ ((2 : Nat) = 1) by decide, if_false, if_true]
+    rw [show [wordOf n % 256, wordOf n / 2 ^ 8 % 256, wordOf n / 2 ^ 16 % 256] ++ [wordOf n / 2 ^ 24 % 256]
+        = [wordOf n % 256, wordOf n / 2 ^ 8 % 256, wordOf n / 2 ^ 16 % 256, wordOf n / 2 ^ 24 % 256] by rfl]
+    rw [bytes4_bits]
+    exact field_bits 24 4 2 (n - 1) (wordOf n) (by decide) (by omega) (by simp [wordOf, hn])
+
+/-- the specification reader on one chunk of the stored stream: header word
+(3 or 4 bytes), then the payload, at a byte boundary -/
+theorem readMetaBlock_chunk (pos : Nat) (c : List Nat) (rest : List Bool)
+    (hp : pos % 8 = 0) (h1 : 1 ≤ c.length) (h2 : c.length ≤ 2 ^ 24) (hb : ∀ b ∈ c, b < 256) :
+    readMetaBlock pos ((hdrBytes c.length ++ c).flatMap (bitsOf 8) ++ rest)
+      = some (MetaBlock.raw c, pos + 8 * ((hdrBytes c.length).length + c.length), rest) := by
+  rw [List.flatMap_append, List.append_assoc, hdr_bits c.length h1 h2]
+  have hl := hdrBytes_length c.length
+  have hpad : (8 - (pos + 1 + 2 + 4 * (4 + nibOf c.length) + 1) % 8) % 8 = (if nibOf c.length = 1 then 0 else 4) := by
+    rcases nibOf_cases c.length with ⟨hn, _⟩ | ⟨hn, _⟩ | ⟨hn, _⟩ <;> rw [hn] <;> simp <;> omega
+  have hraw := readMetaBlock_raw pos (nibOf c.length) (c.length - 1) c rest
+    (by rcases nibOf_cases c.length with ⟨hn, _⟩ | ⟨hn, _⟩ | ⟨hn, _⟩ <;> omega)
+    (by rcases nibOf_cases c.length with ⟨hn, hr⟩ | ⟨hn, hr1, hr2⟩ | ⟨hn, hr⟩ <;> rw [hn] <;> omega)
+    (by rcases nibOf_cases c.length with ⟨hn, hr⟩ | ⟨hn, hr1, hr2⟩ | ⟨hn, hr⟩ <;> rw [hn] <;> intro h <;>
+          have := h.2 <;> omega)
+    (by omega) hb
+  rw [hpad] at hraw
+  simp only [List.cons_append, List.append_assoc] at hraw ⊢
+  rw [hraw]
+  congr 3
+  rw [hl]
+  rcases nibOf_cases c.length with ⟨hn, _⟩ | ⟨hn, _⟩ | ⟨hn, _⟩ <;> rw [hn] <;> simp <;> omega
+
+/-! ## chunks and the exact content of the stored stream -/
+
+/-- the input cut into the chunks `MakeUncompressedStream` stores: 2^24 bytes each, the rest last -/
+def chunksOf (l : List Nat) : List (List Nat) :=
+  if h : l.length > 0 then l.take (chunkOf l.length) :: chunksOf (l.drop (chunkOf l.length)) else []
+termination_by l.length
+decreasing_by have := chunkOf_pos l.length h; simp; omega
+
+theorem chunksOf_nil : chunksOf [] = [] := by rw [chunksOf]; simp
+
+theorem chunksOf_flatten (l : List Nat) : (chunksOf l).flatten = l := by
+  induction hn : l.length using Nat.strongRecOn generalizing l with
+  | _ n ih =>
+    rw [chunksOf]
+    by_cases h : l.length > 0
+    · simp only [h, dif_pos, List.flatten_cons]
+      have := chunkOf_pos l.length h
+      rw [ih (l.drop (chunkOf l.length)).length (by simp; omega) _ rfl]
+      exact List.take_append_drop _ _
+    · have : l = [] := by
+        cases l with
+        | nil => rfl
+        | cons a t => simp at h
+      subst this; simp
+
+theorem chunksOf_spec (l : List Nat) (hb : ∀ b ∈ l, b < 256) :
+    ∀ c ∈ chunksOf l, 1 ≤ c.length ∧ c.length ≤ 2 ^ 24 ∧ ∀ b ∈ c, b < 256 := by
+  induction hn : l.length using Nat.strongRecOn generalizing l with
+  | _ n ih =>
+    rw [chunksOf]
+    by_cases h : l.length > 0
+    · simp only [h, dif_pos, List.mem_cons]
+      obtain ⟨c1, c2, c3⟩ := chunkOf_pos l.length h
+      intro c hc
+      rcases hc with rfl | hc
+      · refine ⟨by simp; omega, by simp; omega, fun b hb' => hb b (List.mem_of_mem_take hb')⟩
+      · exact ih (l.drop (chunkOf l.length)).length (by simp; omega) _
+          (fun b hb' => hb b (List.mem_of_mem_drop hb')) rfl c hc
+    · simp [h]
+
+/-- all chunks but the last are exactly 2^24 bytes (the chunking rule) -/
+def FullButLast : List (List Nat) → Prop
+  | [] => True
+  | [_] => True
+  | c :: c2 :: rest => c.length = 2 ^ 24 ∧ FullButLast (c2 :: rest)
+
+theorem chunksOf_full (l : List Nat) : FullButLast (chunksOf l) := by
+  induction hn : l.length using Nat.strongRecOn generalizing l with
+  | _ n ih =>
+    rw [chunksOf]
+    by_cases h : l.length > 0
+    · simp only [h, dif_pos]
+      obtain ⟨c1, c2, c3⟩ := chunkOf_pos l.length h
+      have ih' := ih (l.drop (chunkOf l.length)).length (by simp; omega) _ rfl
+      cases hch : chunksOf (l.drop (chunkOf l.length)) with
+      | nil => trivial
+      | cons d rest =>
+        rw [hch] at ih'
+        refine ⟨?_, ih'⟩
+        by_cases hbig : l.length > 2 ^ 24
+        · have hc : chunkOf l.length = 2 ^ 24 := by simp [chunkOf, hbig]
+          simp [hc]; omega
+        · exfalso
+          have hc : chunkOf l.length = l.length := by simp [chunkOf, hbig]
+          rw [hc, List.drop_length, chunksOf_nil] at hch
+          cases hch
+    · simp [h]; trivial
+
+/-- body bytes of the stored stream for a list of chunks -/
+def bodyBytes (cs : List (List Nat)) : List Nat := cs.flatMap (fun c => hdrBytes c.length ++ c)
+
+/-- `musLoop_ok` with the content: the loop appends, for each chunk of the
+remaining input, its header bytes and the chunk, then `03` -/
+theorem musLoop_content (cap : Nat) (input : List Nat) :
+    ∀ (size offset : Nat) (out : List Nat), offset + size ≤ input.length →
+      out.length + storedBody size + 1 ≤ cap →
+      musLoop cap input size offset out
+        = ok (out ++ bodyBytes (chunksOf ((input.drop offset).take size)) ++ [3]) := by
+  intro size
+  induction size using Nat.strongRecOn with
+  | _ size ih =>
+    intro offset out hin hcap
+    by_cases hs : size > 0
+    · obtain ⟨c1, c2, c3⟩ := chunkOf_pos size hs
+      have hb : storedBody size = (if nibOf (chunkOf size) = 2 then 4 else 3) + chunkOf size
+          + storedBody (size - chunkOf size) := by
+        rw [storedBody]; simp [hs]
+      have hl := hdrBytes_length (chunkOf size)
+      rw [musLoop_step cap input size offset out hs (by rw [hl]; omega) (by omega)]
+      rw [ih (size - chunkOf size) (by omega) (offset + chunkOf size) _ (by omega) (by simp [hl]; omega)]
+      congr 1
+      have hlen : ((input.drop offset).take size).length = size := by simp; omega
+      rw [chunksOf.eq_1 ((input.drop offset).take size)]
+      simp only [hlen, hs, dif_pos, bodyBytes, List.flatMap_cons]
+      have t1 : ((input.drop offset).take size).take (chunkOf size) = (input.drop offset).take (chunkOf size) := by
+        rw [List.take_take]; congr 1; omega
+      have t2 : ((input.drop offset).take size).drop (chunkOf size)
+          = (input.drop (offset + chunkOf size)).take (size - chunkOf size) := by
+        rw [List.drop_take, List.drop_drop]
+      rw [t1, t2]
+      have t3 : ((input.drop offset).take (chunkOf size)).length = chunkOf size := by simp; omega
+      rw [t3]
+      simp [List.append_assoc]
+    · have : size = 0 := by omega
+      subst this
+      have hb : storedBody 0 = 0 := by rw [storedBody]; simp
+      rw [musLoop_zero, push_ok _ _ _ (by omega)]
+      simp [chunksOf_nil, bodyBytes]
+
+/-! ## the reader on the whole stream -/
+
+/-- stream header `21` and the metadata padding block `03`: window 10, then an
+empty metadata meta-block ending at bit 16 -/
+theorem read_preamble (rest : List Bool) :
+    readWbits (([33, 3] : List Nat).flatMap (bitsOf 8) ++ rest)
+      = some (10, false, false :: (bitsOf 8 3 ++ rest)) ∧
+    readMetaBlock 7 (false :: (bitsOf 8 3 ++ rest)) = some (MetaBlock.metadata [], 16, rest) := by
+  constructor
+  · rfl
+  · simp [readMetaBlock, bitsOf, takeVal, valOf, skipPad, takeBytes]
+
+/-- the closing byte `03` at a byte boundary: ISLAST, ISLASTEMPTY, padding -/
+theorem read_final (pos : Nat) (hp : pos % 8 = 0) :
+    readMetaBlock pos (bitsOf 8 3) = some (MetaBlock.lastEmpty, pos + 8, []) := by
+  have hk : (8 - (pos + 1 + 1) % 8) % 8 = 6 := by omega
+  simp [readMetaBlock, bitsOf, skipPad, hk]
+
+theorem bodyBytes_cons (c : List Nat) (cs : List (List Nat)) :
+    bodyBytes (c :: cs) = hdrBytes c.length ++ c ++ bodyBytes cs := by
+  simp [bodyBytes]
+
+/-- the framing reader on the chunks and the closing byte -/
+theorem decodeFraming_body : ∀ (cs : List (List Nat)) (pos fuel : Nat), pos % 8 = 0 → cs.length + 1 ≤ fuel →
+    (∀ c ∈ cs, 1 ≤ c.length ∧ c.length ≤ 2 ^ 24 ∧ ∀ b ∈ c, b < 256) →
+    decodeFraming fuel pos ((bodyBytes cs ++ [3]).flatMap (bitsOf 8))
+      = some (cs.map MetaBlock.raw ++ [MetaBlock.lastEmpty]) := by
+  intro cs
+  induction cs with
+  | nil =>
+    intro pos fuel hp hf _
+    obtain ⟨f, rfl⟩ : ∃ f, fuel = f + 1 := ⟨fuel - 1, by simp at hf; omega⟩
+    have : (bodyBytes [] ++ [3]).flatMap (bitsOf 8) = bitsOf 8 3 := by simp [bodyBytes]
+    rw [this]
+    simp only [decodeFraming, read_final pos hp]
+    rfl
+  | cons c cs ih =>
+    intro pos fuel hp hf hcs
+    obtain ⟨f, rfl⟩ : ∃ f, fuel = f + 1 := ⟨fuel - 1, by simp at hf; omega⟩
+    obtain ⟨c1, c2, c3⟩ := hcs c (by simp)
+    have e : (bodyBytes (c :: cs) ++ [3]).flatMap (bitsOf 8)
+        = (hdrBytes c.length ++ c).flatMap (bitsOf 8) ++ (bodyBytes cs ++ [3]).flatMap (bitsOf 8) := by
+      rw [bodyBytes_cons]; simp [List.flatMap_append]
+    rw [e]
+    simp only [decodeFraming, readMetaBlock_chunk pos c _ hp c1 c2 c3]
+    rw [ih (pos + 8 * ((hdrBytes c.length).length + c.length)) f (by omega) (by simp at hf ⊢; omega)
+      (fun d hd => hcs d (by simp [hd]))]
+    rfl
+
+theorem decodeFraming_metadata (f pos : Nat) (bs : List Bool) (pl : List Nat) (pos' : Nat) (r : List Bool)
+    (h : readMetaBlock pos bs = some (MetaBlock.metadata pl, pos', r)) :
+    decodeFraming (f + 1) pos bs = (decodeFraming f pos' r).map (MetaBlock.metadata pl :: ·) := by
+  simp only [decodeFraming, h]
+
+/-- exact bytes of the stored stream of a non-empty input -/
+theorem mus_content (x : List Nat) (cap : Nat) (hn : x.length < 2 ^ 54) (h0 : 0 < x.length)
+    (hcap : maxCompressedSize x.length ≤ cap) :
+    makeUncompressedStream x x.length cap = ok ([33, 3] ++ bodyBytes (chunksOf x) ++ [3]) := by
+  obtain ⟨out, h1, h2, h3⟩ := mus_fits x cap hn hcap
+  have hne : ¬ x.length = 0 := by omega
+  simp only [hne, if_false] at h3
+  simp only [makeUncompressedStream, lit, litsMus, BV.Gen.lits_MakeUncompressedStream, List.getD_cons_zero,
+    List.getD_cons_succ, hne, if_false]
+  rw [push_ok _ _ _ (by simp; omega)]
+  simp only [Out.bind]
+  rw [push_ok _ _ _ (by simp; omega)]
+  simp only []
+  rw [musLoop_content cap x x.length 0 _ (by omega) (by simp; omega)]
+  simp
+
+end BV.Stored
